@@ -458,7 +458,16 @@ def build_tree_rules(F, res):
                         if not marks:
                             continue
                         b2, t2 = max(marks, key=lambda x: len(bt.dominators().get(x[0], ())))
-                        a = t2["args"][po["n"] - 1]
+                        if po["n"] - 1 < len(t2["args"]):
+                            a = t2["args"][po["n"] - 1]
+                        else:
+                            # the helper is itself a closure (`let count_tokens = |from, pred: fn(SyntaxKind) -> bool| ..`): its call
+                            # carries the arguments as one tuple behind the closure
+                            tup = d.origin_op(t2["args"][-1]) if t2["args"] else {}
+                            ops_ = tup["rv"]["ops"] if tup.get("k") == "agg" else []
+                            if not (0 <= po["n"] - 2 < len(ops_)):
+                                continue
+                            a = ops_[po["n"] - 2]
                         kdef = (a.get("k") or {}).get("def") if isinstance(a.get("k"), dict) else None
                         if kdef is None:
                             ao = d.origin_op(a)
